@@ -349,4 +349,20 @@ example : FloatLike.toInt x1_5 = 1 ∧ FloatLike.toInt (-x1_5) = -1 := by
   · rw [toInt_eq, hv]; norm_num [trunc, satI64]
   · rw [toInt_eq, neg_val, hv]; norm_num [trunc, satI64]
 
+/-! ### what `SF` does not see: the sign of zero
+
+`SF` identifies `+0.0` and `−0.0` (both decode to the rational `0`).  Two of the discharged laws hold in the hardware
+format only up to that identification — on the bit-level model `Rrtk.Soft.binop` (same rounding, IEEE-754 §6.3 zero
+signs) `0.0 + (−0.0)` is `+0.0`, so `hzero : 0.0 + x = x` fails BITWISE at the single finite value `x = −0.0`; likewise
+`habs_nonneg` of C19 (`0.0 ≤ −0.0` holds and `abs (−0.0) = +0.0`).  The two sides still compare equal (`==`) and decode to
+the same number, which is what the `*_binary32` corollaries state. -/
+example : binop .add 0 0x80000000 = some 0 := by decide +kernel
+example : binop .add 0 0x80000000 ≠ some 0x80000000 := by decide +kernel
+example : decode 0 = some 0 ∧ decode 0x80000000 = some 0 := by decide +kernel
+/-- at every other pair of operands tried the bit-level sum is what `SF` computes, e.g. `2^24 + 1 = 2^24`
+(`0x4b800000 + 0x3f800000`) -/
+example : binop .add 0x4b800000 0x3f800000 = some 0x4b800000 := by decide +kernel
+example : decode 0x4b800000 = some x2p24.val ∧ decode 0x3f800000 = some (c1 : SF).val := by
+  rw [x2p24_val, c1_val]; decide +kernel
+
 end Rrtk.Thm.SoftScalar
